@@ -121,8 +121,8 @@ class CondGen:
             return ["in", ["v", rng.choice(names)], ["attr", self.obj_term(names), "kids"]]
         if k == "fp":
             name = rng.choice(["p_odd", "p_ge", "p_link", "p_has", "p_calls", "p_makes"] +
-                              (["p_inner"] if self.cfg.get("inner_eval") else []))
-            if name in ("p_odd", "p_calls", "p_makes", "p_inner"):
+                              (["p_inner", "p_ctx"] if self.cfg.get("inner_eval") else []))
+            if name in ("p_odd", "p_calls", "p_makes", "p_inner", "p_ctx"):
                 return ["fp", name, [self.obj_term(names)]]
             if name == "p_link":
                 return ["fp", name, [self.obj_term(names), self.obj_term(names)]]
